@@ -47,10 +47,10 @@ def build_harness(race=False):
             os.makedirs(os.path.join(hdir, "cmd", "amverif"))
             shutil.copy(os.path.join(HARNESS, "go.mod"), hdir)
             shutil.copy(os.path.join(HARNESS, "cmd", "amverif", "main.go"), os.path.join(hdir, "cmd", "amverif"))
-            for item in subset.split(","):
+            for item in sorted(set(subset.split(","))):
                 if os.path.isdir(os.path.join(HARNESS, item)):
                     shutil.copytree(os.path.join(HARNESS, item), os.path.join(hdir, item))
-                elif os.path.exists(os.path.join(HARNESS, "cmd", "amverif", item + ".go")):
+                if os.path.exists(os.path.join(HARNESS, "cmd", "amverif", item + ".go")):
                     shutil.copy(os.path.join(HARNESS, "cmd", "amverif", item + ".go"),
                                 os.path.join(hdir, "cmd", "amverif"))
         else:
